@@ -622,7 +622,10 @@ theorem applyRewire_treeInv {o : Obj σ α} (L : Laws o) (s : St σ α δ) (x ne
     (hinc : inc = o.motionCost nm.state xm.state) (hb : o.better (o.combine nm.cost inc) xm.cost = true) :
     TreeInv o (applyRewire o s new x inc (o.combine nm.cost inc)).motions ∧
     SameStates s.motions (applyRewire o s new x inc (o.combine nm.cost inc)).motions ∧
-    (applyRewire o s new x inc (o.combine nm.cost inc)).fuelOut = s.fuelOut := by
+    (applyRewire o s new x inc (o.combine nm.cost inc)).fuelOut = s.fuelOut ∧
+    (∀ (i : Nat) (m : Motion σ α), s.motions[i]? = some m →
+      ∃ m4, (applyRewire o s new x inc (o.combine nm.cost inc)).motions[i]? = some m4 ∧
+        m4.parent = (if x = i then some new else m.parent) ∧ m4.incCost = (if x = i then inc else m.incCost)) := by
   obtain ⟨depth, F, hC, hR, hI⟩ := hT
   -- x is not new, not an ancestor of new, and not a start
   have hna : ¬ Anc s.motions x new := by
@@ -659,7 +662,14 @@ theorem applyRewire_treeInv {o : Obj σ α} (L : Laws o) (s : St σ α δ) (x ne
     unfold applyRewire; simp only []; rw [hms3]
   have hfl : (applyRewire o s new x inc (o.combine nm.cost inc)).fuelOut = (s.fuelOut || (updateChildCosts o ms3.size ms3 x).2) := by
     unfold applyRewire; simp only []; rw [hms3]
-  refine ⟨?_, ?_, by rw [hfl, p2]; simp⟩
+  refine ⟨?_, ?_, by rw [hfl, p2]; simp, ?_⟩
+  rotate_left 2
+  · intro i m hm
+    rw [hres]
+    obtain ⟨m4, hm4, hs4⟩ := p1.symm.get (rewired_bwd hget hm)
+    refine ⟨m4, hm4, ?_, ?_⟩
+    · rw [strip_parent hs4]; simp [rewired]
+    · rw [strip_inc hs4]; simp [rewired]
   · rw [hres]
     refine ⟨depth', F3.of_sameShape p1, fun i => (p4 i).resolve_right id, ?_, hI3.of_sameShape p1⟩
     intro i m hm hp
@@ -1019,7 +1029,7 @@ theorem rewireStep_inv {o : Obj σ α} (L : Laws o) (sp : Space σ δ) (valid : 
   · exact ⟨by rw [hc.1]; exact hJ.1, by rw [hc.1]; exact hJ.2.1, by rw [hc.2]; exact hJ.2.2⟩
   · have hT1 : TreeInv o s1.motions := by rw [hc.1]; exact hJ.1
     have := applyRewire_treeInv L s1 ni new nb mot inc hT1 (by rw [hc.1]; exact hx) (by rw [hc.1]; exact hn) hinc hb
-    refine ⟨this.1, ?_, by rw [this.2.2, hc.2]; exact hJ.2.2⟩
+    refine ⟨this.1, ?_, by rw [this.2.2.1, hc.2]; exact hJ.2.2⟩
     have h2 : SameStates ms0 s1.motions := by rw [hc.1]; exact hJ.2.1
     exact h2.trans this.2.1
 
